@@ -89,7 +89,7 @@ def cmp_full(fields=(0, 1, 3, 4, 5, 6, 7, 8), ctxs=None):
 
 
 def explore_and_check(p, idx, label, prog, mons=(), cmp=None, depth=None, alphabet=None, back_alphabet=None,
-                      watch=(), sample_every=499, outcome=None, canon_paths=None):
+                      watch=(), sample_every=499, outcome=None, canon_paths=None, value_caps=None):
     """BFS over env histories of one program; monitors mons: fn(prog, rr, envf) -> [(group, detail)];
     cmp(rr, ro) -> None | (group, detail) against the reference interpreter."""
     from mc.flo import explore, families as F, lang, conform
@@ -128,7 +128,7 @@ def explore_and_check(p, idx, label, prog, mons=(), cmp=None, depth=None, alphab
         return False
 
     st = explore.explore(prog, alphabet or F.ENV_ALPHABET, depth=depth or (6 if core.TIER == "quick" else 8),
-                         on_run=on_run, back_alphabet=back_alphabet, watch=watch, canon_paths=canon_paths)
+                         on_run=on_run, back_alphabet=back_alphabet, watch=watch, canon_paths=canon_paths, value_caps=value_caps)
     p.states += st["states"]
     p.transitions += st["transitions"]
     p.traces += st["runs"]
